@@ -314,7 +314,9 @@ class NamespaceClass(Namespace[symtable.Class]):
             if name in comp.target_names:
                 return Name(id=name, ctx=Load())
 
-        if name in self.globals_used_in_comp:
+        if self.comp_stack and name in self.globals_used_in_comp:
+            # only inside the lambda / comprehension itself:
+            # the class body proper still sees its own member of that name
             return Name(id=name, ctx=Load())
 
         symbol = self.symt.lookup(name)
